@@ -85,6 +85,12 @@ structure File where
   calls : List Call
 deriving Repr, Inhabited
 
+/-- domain of the chain-wise model (audit 2, A-C18-1): scan-in port names pairwise different and scan-out port names pairwise
+different. stil.py keys `si_ports` / `so_ports` / `scan_maps` by PORT (a later chain of the same port replaces the earlier one);
+the model below walks the chain list, which is the same thing exactly on this domain. -/
+def File.portsOK (f : File) : Bool :=
+  decide (f.chains.map (·.si)).Nodup && decide (f.chains.map (·.so)).Nodup
+
 /-- `.replace('\n', '').replace('N', '-')` -/
 def clean (s : List Char) : List Char := (s.filter (· != '\n')).map fun c => if c == 'N' then '-' else c
 
